@@ -182,6 +182,10 @@ def t_open(E, existing_mode, new_mode, number=2):
         locks._locking_parameters = {1: _file(b'DATA.DAT', mode=existing_mode)}
     r = E.call(locks.open_file, b'C:\\DIR\\data.dat', number, new_mode, b'', b'')
     must_fail = existing_mode is not None and (existing_mode in (b'O', b'A') or new_mode in (b'O', b'A'))
+    if existing_mode in (b'O', b'A') and new_mode not in (b'O', b'A'):
+        # recorded, open finding: as real GW-BASIC does (the repository's own LockFilesOutput model),
+        # a file open for OUTPUT/APPEND can be opened again for INPUT/RANDOM
+        E.known_finding('C26-reopen-after-output', True)
     if must_fail:
         E.prove(r.is_error(BASICError, error.FILE_ALREADY_OPEN),
                 'a file open for OUTPUT/APPEND (or opened for it while open) cannot be opened again')
